@@ -253,4 +253,54 @@ theorem kbestRun_reach (starts : List Nat) (lq overlap : Nat) (minlen maxlen k :
           rw [heq]
           simp [IterState.accept]
 
+/-- an extra stopping rule only shortens the iteration: whatever the rule, the matches are a prefix of the
+matches of the unlimited iterator with the same overlap and length limits -/
+theorem kbestRunStop_prefix (stop : List (Nat × Cost) → Nat → Cost → Bool) (starts : List Nat) (lq overlap : Nat)
+    (minlen maxlen k : Option Nat) (fuel : Nat) :
+    ∀ (slots : List (Slot Cost)) (ki : Nat) (hist : List (Nat × Cost)),
+      kbestRunStop stop starts lq overlap minlen maxlen k fuel slots ki hist <+:
+        kbestRun starts lq overlap minlen maxlen k fuel slots ki := by
+  induction fuel with
+  | zero => intro slots ki hist; simp [kbestRunStop, kbestRun]
+  | succ fuel ih =>
+    intro slots ki hist
+    unfold kbestRunStop kbestRun
+    by_cases hk : kReached k ki = true
+    · simp [hk]
+    · simp only [hk, Bool.false_eq_true, if_false]
+      cases hfm : firstMin slots with
+      | none => simp
+      | some ev =>
+        obtain ⟨e, v⟩ := ev
+        simp only
+        by_cases hs : stop hist ki v = true
+        · simp [hs]
+        · simp only [hs, Bool.false_eq_true, if_false]
+          by_cases hc : candRejected slots overlap minlen maxlen (starts.getD e 0) e = true
+          · simp only [hc, if_true]; exact ih _ _ _
+          · simp only [hc, Bool.false_eq_true, if_false]
+            exact List.prefix_cons_inj _ |>.mpr (ih _ _ _)
+
+/-- a rule that never fires gives the unlimited iterator -/
+theorem kbestRunStop_never (starts : List Nat) (lq overlap : Nat) (minlen maxlen k : Option Nat) (fuel : Nat) :
+    ∀ (slots : List (Slot Cost)) (ki : Nat) (hist : List (Nat × Cost)),
+      kbestRunStop (fun _ _ _ => false) starts lq overlap minlen maxlen k fuel slots ki hist =
+        kbestRun starts lq overlap minlen maxlen k fuel slots ki := by
+  induction fuel with
+  | zero => intro slots ki hist; simp [kbestRunStop, kbestRun]
+  | succ fuel ih =>
+    intro slots ki hist
+    unfold kbestRunStop kbestRun
+    by_cases hk : kReached k ki = true
+    · simp [hk]
+    · simp only [hk, Bool.false_eq_true, if_false]
+      cases hfm : firstMin slots with
+      | none => simp
+      | some ev =>
+        obtain ⟨e, v⟩ := ev
+        simp only [Bool.false_eq_true, if_false]
+        by_cases hc : candRejected slots overlap minlen maxlen (starts.getD e 0) e = true
+        · simp only [hc, if_true]; exact ih _ _ _
+        · simp only [hc, Bool.false_eq_true, if_false]; rw [ih]
+
 end Dtai
